@@ -100,6 +100,9 @@ type relay struct {
 	// writerDone is closed when the goroutine that writes `output` to `dest` has finished.
 	writerDone chan struct{}
 
+	// srcEnded is set when nothing more can be read from `src`: it has closed its connection.
+	srcEnded atomic.Bool
+
 	enableDebugLogs *bool
 
 	// The following fields depend on a circular dependency between the relays in opposite directions
@@ -211,18 +214,28 @@ func (r *relay) relayFrames(closing chan bool, stop chan struct{}) error {
 		select {
 		case <-frameReady:
 			if err != nil {
+				r.srcEnded.Store(true)
 				if errors.Is(err, io.EOF) {
 					return nil
 				}
 				return fmt.Errorf("reading frame: %w", err)
 			}
 			if err := r.processFrame(frame); err != nil {
+				if r.destGone() {
+					// What cannot be passed on to an endpoint that has closed its connection is dropped.
+					// `src` is read on: its WINDOW_UPDATE frames release what the peer relay holds for it.
+					log.Debug(context.TODO(), "dropping frame for closed connection", "dest", r.destLabel, "error", err)
+					continue
+				}
 				return fmt.Errorf("processing frame: %w", err)
 			}
 			if *r.enableDebugLogs {
 				log.Info(context.TODO(), fmt.Sprintf("%s--%v-->%s", r.srcLabel, frame, r.destLabel))
 			}
 		case err := <-writerErr:
+			if r.destGone() {
+				continue
+			}
 			return fmt.Errorf("sending frame: %w", err)
 		case <-closing:
 			// The ReadFrame goroutine is abandoned at this point. It completes as soon as the blocking
@@ -230,6 +243,11 @@ func (r *relay) relayFrames(closing chan bool, stop chan struct{}) error {
 			return nil
 		}
 	}
+}
+
+// destGone reports whether the endpoint this relay writes to has closed its connection.
+func (r *relay) destGone() bool {
+	return r.peer != nil && r.peer.srcEnded.Load()
 }
 
 func (r *relay) processFrame(f http2.Frame) error {
